@@ -679,21 +679,20 @@ class InterpolatableFunction(ABC):
         # what to append to lower end
         if newMin < self._rangeMin and pointsMin > 0:
 
-            ## Point spacing to use at new lower end
-            spacing = np.abs(self._rangeMin - newMin) / pointsMin
-            # arange stops one spacing before the max value, which is what we want
-            appendPointsMin = np.arange(newMin, self._rangeMin, spacing)
+            # pointsMin equally spaced points in [newMin, rangeMin). linspace rather than
+            # arange: with a non-integer step arange can emit one point too many, i.e. a
+            # duplicate of the current range end, which CubicSpline rejects.
+            appendPointsMin = np.linspace(
+                newMin, self._rangeMin, pointsMin, endpoint=False
+            )
         else:
             appendPointsMin = np.array([])
 
         # what to append to upper end
         if newMax > self._rangeMax and pointsMax > 0:
 
-            ## Point spacing to use at new upper end
-            spacing = np.abs(newMax - self._rangeMax) / pointsMax
-            appendPointsMax = np.arange(
-                self._rangeMax + spacing, newMax + spacing, spacing
-            )
+            # pointsMax equally spaced points in (rangeMax, newMax]
+            appendPointsMax = np.linspace(self._rangeMax, newMax, pointsMax + 1)[1:]
         else:
             appendPointsMax = np.array([])
 
